@@ -517,4 +517,72 @@ Section Main.
       + lia.
     - lia.
   Qed.
+
+  Lemma dur_ok_facts : forall d, dur_ok oc d = true ->
+    (trunc_ms d <=? 0) = false /\ olook (o_drt oc) (trunc_ms d) = d.
+  Proof. unfold dur_ok. intros. b2p. split; auto. apply Z.leb_gt. lia. Qed.
+
+  Lemma PL_mat : forall v rng, wf (EMat v rng) = true -> PL (EMat v rng).
+  Proof.
+    intros v rng Hwf Ha f n X r Hf HX Hp. cbn [wfb] in Hwf. apply andb_prop in Hwf. destruct Hwf as [Hv Hd].
+    destruct (dur_ok_facts _ Hd) as [D1 D2].
+    assert (Hlen : (3 + length (print_ext (vs_ext v)) + length (print_at oc (vs_at v)) + length (print_off (vs_off v)) <= tlen (EMat v rng))%nat).
+    { unfold tlen. cbn [unnorm print]. repeat rewrite app_length. simpl. lia. }
+    cbn [unnorm print] in *. repeat rewrite <- app_assoc. cbn [app].
+    rewrite primary_vs; auto; [|exact I].
+    destruct f as [|m]; [lia|].
+    cbn [postfix_loop postfix_step tk T TD tz print_range]. rewrite D1, D2.
+    pose proof Hv as W. unfold vs_ok in W. b2p.
+    destruct v as [name ms a x d]. cbn [vs_at vs_ext vs_off vs_name vs_ms] in *. unfold vs0. cbn [vs_name vs_ms vs_at vs_off].
+    cbn [Z.eqb].
+    eapply loop_ext' with (e' := EMat (mkVS name ms AtNone x 0) rng) (n := (n + length (print_off d) + length (print_at oc a))%nat).
+    - destruct x; try reflexivity; unfold apply_ext;
+        match goal with H : o_ext o = true |- _ => rewrite H end; reflexivity.
+    - eapply loop_at' with (e' := EMat (mkVS name ms a x 0) rng) (n := (n + length (print_off d))%nat); auto.
+      + destruct a; reflexivity.
+      + eapply loop_off' with (e' := EMat (mkVS name ms a x d) rng) (n := n); auto.
+        destruct (d =? 0) eqn:E; [apply Z.eqb_eq in E; subst; reflexivity|reflexivity].
+    - lia.
+  Qed.
+
+  Lemma PL_sub : forall e1 rng step a d,
+    (forall e', (tlen e' < tlen (ESub e1 rng step a d))%nat -> wf e' = true -> ML e' /\ PL e') ->
+    wf (ESub e1 rng step a d) = true -> PL (ESub e1 rng step a d).
+  Proof.
+    intros e1 rng step a d IH Hwf Ha f n X r Hf HX Hp. cbn [wfb] in Hwf.
+    apply andb_prop in Hwf. destruct Hwf as [Hwf Hat]. apply andb_prop in Hwf. destruct Hwf as [Hwf Hoff].
+    apply andb_prop in Hwf. destruct Hwf as [Hwf Hstep]. apply andb_prop in Hwf. destruct Hwf as [Hwf Hrng].
+    apply andb_prop in Hwf. destruct Hwf as [Hw1 Hatom].
+    destruct (dur_ok_facts _ Hrng) as [D1 D2].
+    set (stoks := if step =? 0 then [] else [TD (trunc_ms step)]) in *.
+    assert (Hlen : (tlen e1 + 4 + length stoks + length (print_at oc a) + length (print_off d) <= tlen (ESub e1 rng step a d))%nat).
+    { unfold tlen. cbn [unnorm print]. fold stoks. repeat rewrite app_length. simpl. lia. }
+    cbn [unnorm print] in *. fold stoks. repeat rewrite <- app_assoc. cbn [app].
+    destruct (IH e1) as [_ PL1]; [lia|auto|].
+    apply (PL1 Hatom f (S (n + length (print_off d) + length (print_at oc a)))); [lia|exact I|].
+    cbn [postfix_loop postfix_step tk T TD tz print_range]. rewrite D1, D2.
+    assert (E : exists Y', (stoks ++ T KRB :: print_at oc a ++ print_off d ++ X) = Y' /\
+              match Y' with
+              | s :: rest'' =>
+                  match tk s with
+                  | KRB => Ok (ESub (unnorm e1) rng 0 AtNone 0, rest'')
+                  | KDUR => if tz s <=? 0 then Err EType else
+                            match rest'' with
+                            | b :: rest3 => match tk b with KRB => Ok (ESub (unnorm e1) rng (olook (o_drt oc) (tz s)) AtNone 0, rest3) | _ => Err ESyntax end
+                            | [] => Err ESyntax end
+                  | KNUM => Err EUnsup
+                  | _ => Err ESyntax
+                  end
+              | [] => Err ESyntax
+              end = Ok (ESub (unnorm e1) rng step AtNone 0, print_at oc a ++ print_off d ++ X)).
+    { eexists; split; [reflexivity|]. unfold stoks. destruct (step =? 0) eqn:E0.
+      - apply Z.eqb_eq in E0. subst. reflexivity.
+      - cbn [orb] in Hstep. destruct (dur_ok_facts _ Hstep) as [S1 S2].
+        cbn [app tk TD T tz]. rewrite S1, S2. reflexivity. }
+    destruct E as (Y' & EY & EM). rewrite EY. rewrite EM.
+    eapply loop_at' with (e' := ESub (unnorm e1) rng step a 0) (n := (n + length (print_off d))%nat); auto.
+    - destruct a; reflexivity.
+    - eapply loop_off' with (e' := ESub (unnorm e1) rng step a d) (n := n); auto.
+      destruct (d =? 0) eqn:E; [apply Z.eqb_eq in E; subst; reflexivity|reflexivity].
+  Qed.
 End Main.
